@@ -33,7 +33,9 @@ META = {
                "all device/instance-scheme event frames x a map with one symbolic entry "
                "(short address 0..63, instance 0..31, type 0..255) or none",
                "widths 1..64 other than 16/24 with fully symbolic data",
-               "thorough: device types 0..65535; maps with two symbolic entries; all 2^24 frames under a map"],
+               "thorough: device types 0..65535; maps with two symbolic entries; all 2^24 frames under a map",
+               "before every decode a 24-bit frame and an ENABLE DEVICE TYPE frame with a symbolic type are "
+               "decoded; the decode under test is compared with a second decode made right after it"],
     "stubs": ["isinstance/int/bytes shims", "SymDict around the opcode/instance-type registries",
               "SymKeyDict as DeviceInstanceTypeMapper._mapping in symbolic mode (plain dict in the "
               "concrete cross-validation run)", "text tokens for formatted symbolic ints"],
